@@ -426,6 +426,16 @@ fn live_memory_vs_file(rep: &mut Report, t: &Target, groups: &[Group], files: &[
                 rep.violation("C14 live: build id note not found through target memory", json!({"case": case, "module": g.name, "memory": mem_id.as_ref().map(|b| hex(b)).map_err(|e| e.to_string())}));
             }
         }
+        // the SONAME of a synthetic image is reachable through PT_DYNAMIC, which is mapped: the
+        // memory view must produce it - also when the loader has relocated DT_STRTAB in place
+        if let (Some(f), Some(so)) = (ft, &facts.soname) {
+            if f.pad == 0 {
+                rep.count("sonames_required_through_memory", 1);
+                if mem_so.as_ref().ok() != Some(so) {
+                    rep.violation("C14 live: SONAME not found through target memory", json!({"case": case, "module": g.name, "vaddr_bias": f.spec.vaddr_bias, "expected": so, "memory": mem_so.as_ref().map_err(|e| e.to_string())}));
+                }
+            }
+        }
     }
 }
 
@@ -443,6 +453,10 @@ pub fn run_c14_live(rep: &mut Report, thorough: bool) {
         for k in 0..rng.range(2, 8) {
             let mut spec = ElfSpec::random(&mut rng);
             spec.bits64 = true;
+            // images linked at a non-zero base and loaded somewhere else
+            if rng.chance(1, 3) {
+                spec.vaddr_bias = *rng.pick(&[0x40_0000u64, 0x2000_0000, 0x1000]);
+            }
             let pad = if rng.chance(1, 6) { PAGE } else { 0 };
             scen::add_elf_file_ex(&mut b, &mut rng, &dir, &format!("libc14-{k}.so"), spec, false, pad, &mut files);
         }
@@ -453,6 +467,31 @@ pub fn run_c14_live(rep: &mut Report, thorough: bool) {
                 continue;
             }
         };
+        // what the dynamic loader does to a loaded library: DT_STRTAB (an address) is relocated IN
+        // PLACE to the run-time address of the string table. Half of the images get that treatment
+        // (written through /proc/<pid>/mem, copy-on-write on the private mapping).
+        {
+            use std::os::unix::fs::FileExt;
+            if let Ok(memf) = std::fs::OpenOptions::new().read(true).write(true).open(format!("/proc/{}/mem", t.pid)) {
+                for f in files.iter().filter(|f| f.pad == 0) {
+                    if !rng.chance(1, 2) {
+                        continue;
+                    }
+                    let built = elf::build(&f.spec);
+                    for i in 0..8 {
+                        let (Some(tag), Some(val)) = (built.fields.iter().find(|x| x.name == format!("dyn{i}.d_tag")), built.fields.iter().find(|x| x.name == format!("dyn{i}.d_val"))) else { break };
+                        let tagv = u64::from_le_bytes(built.bytes[tag.off..tag.off + 8].try_into().unwrap());
+                        if tagv == 5 {
+                            let link_val = u64::from_le_bytes(built.bytes[val.off..val.off + 8].try_into().unwrap());
+                            let runtime = f.base + (link_val - f.spec.vaddr_bias);
+                            if memf.write_all_at(&runtime.to_le_bytes(), f.base + val.off as u64).is_ok() {
+                                rep.count("images_with_dt_strtab_relocated_in_place", 1);
+                            }
+                        }
+                    }
+                }
+            }
+        }
         let groups = groups_of(&t.maps());
         let case = json!({"files": files.iter().map(|f| json!({"path": f.path, "pad": f.pad, "phdr_note": f.spec.phdr_note.is_some(), "empty_first_note": f.spec.empty_first_note, "soname": f.spec.soname})).collect::<Vec<_>>()});
         live_memory_vs_file(rep, &t, &groups, &files, &case);
